@@ -252,11 +252,19 @@ def _work(job):
         maps[key] = {o[0]: (b["index"], o[1], o[2]) for o, b in zip(offs, oblocks)}
     pid_of = {(m.code_object_id, m.node.index): pid for pid, m in sp.existing_predicates.items()}
     branchless = set(sp.branch_less_code_objects)
-    for k, s in enumerate(specs):
-        truth = I.monitored_call(plain, path, s, ("BRANCH", "PY_START"))
-        obs, trace = I.traced_call(sp, code, path, s)
-        if obs["exc"] != truth["exc"]:
-            res["fails"].append(["behaviour-differs", f"plain {truth['exc']} instrumented {obs['exc']}", k])
+    import types as _types
+
+    from pynguin.ga import coveragegoals as cg
+
+    goals = [(pid, v, cg.BranchGoal(m.code_object_id, pid, value=v)) for pid, m in sp.existing_predicates.items() for v in (True, False)]
+    bl_goals = [(coid, cg.BranchlessCodeObjectGoal(coid)) for coid in sorted(branchless)]
+    seq = I.sequence_of(specs)
+    truths = I.monitored_sequence(plain, path, seq, ("BRANCH", "PY_START"))
+    runs = I.traced_sequence(sp, code, path, seq)
+    for k, (truth, (exc, trace)) in enumerate(zip(truths, runs, strict=True)):
+        kk = k if k < len(specs) else None
+        if exc != truth["exc"]:
+            res["fails"].append(["behaviour-differs", f"execution {k}: plain {truth['exc']} instrumented {exc}", kk])
             continue
         taken = set()
         for key, off, dest in truth["branches"]:
@@ -268,12 +276,9 @@ def _work(job):
             v = lbl if jumped else (not lbl)
             pid = pid_of.get((key2co[key], bi))
             taken.add((pid if pid is not None else f"unregistered:{key}:{bi}", bool(v)))
-        reported = set()
-        for pid in trace.executed_predicates:
-            if trace.true_distances.get(pid) == 0.0:
-                reported.add((pid, True))
-            if trace.false_distances.get(pid) == 0.0:
-                reported.add((pid, False))
+        # the goal level: the real BranchGoal.is_covered on the real execution result
+        result = _types.SimpleNamespace(execution_trace=trace)
+        reported = {(pid, v) for pid, v, g in goals if g.is_covered(result)}
         if reported != taken:
             extra = sorted(map(str, reported - taken))
             missing = sorted(map(str, taken - reported))
@@ -282,12 +287,16 @@ def _work(job):
                                  for p, _v in taken - reported):
                 # the tracer deliberately does not evaluate `x in <one-shot iterator>` (it would consume it)
                 kind = "taken-not-reported:membership-unobserved"
-            res["fails"].append([f"branches:{kind}", f"reported-but-not-taken {extra}; taken-but-not-reported {missing}", k])
+            dist = {p: (trace.true_distances.get(p), trace.false_distances.get(p)) for p, _v in (reported ^ taken) if isinstance(p, int)}
+            res["fails"].append([f"branches:{kind}", f"execution {k}: goals covered but outcome not taken {extra}; taken but goal not "
+                                 f"covered {missing}; (true, false) distances {dist}", kk])
         entered = {key2co[key] for key in truth.get("starts", []) if key in key2co}
         rep_co = set(trace.executed_code_objects)
         if entered != rep_co:
             res["fails"].append(["code-objects:" + ("reported-not-entered" if rep_co - entered else "entered-not-reported"),
-                                 f"entered {sorted(entered)} reported {sorted(rep_co)} (branch-less: {sorted(branchless)})", k])
+                                 f"entered {sorted(entered)} reported {sorted(rep_co)} (branch-less: {sorted(branchless)})", kk])
+        elif {c for c, g in bl_goals if g.is_covered(result)} != entered & branchless:
+            res["fails"].append(["code-objects:branchless-goal", f"branch-less goals covered differ from branch-less code objects entered {sorted(entered & branchless)}", kk])
         res["stats"]["runs"] = res["stats"].get("runs", 0) + 1
         res["stats"]["edges"] = res["stats"].get("edges", 0) + len(taken)
     return res
@@ -360,7 +369,7 @@ def run(ctx: vlib.Ctx):
                 continue
             seen.add(sig)
             src, specs = progs[r["n"]][0], r.get("specs", progs[r["n"]][1])
-            ctx.fail(sig, msg, {"program": src, "input": specs[k] if k is not None and k < len(specs) else None})
+            ctx.fail(sig, msg, {"program": src, "input": specs[k] if k is not None and k < len(specs) else None, "inputs": specs})
     ctx.sample({"program": progs[-1][0][len(G.PRELUDE):][:500], "cfg": cases[-1][:600] if cases else None})
     ctx.leg("S", failures=n_or, programs=len(progs))
     bad = ctx.run_cases("C03_cfgs", "From Verif Require Import Models.C03.", "C03.case", "C03.check_case", cases, shard=150)
@@ -384,7 +393,7 @@ def replay(ctx, path):
     I.setup()
     d = json.loads(open(path).read())["replay"]
     scratch = ctx.mkscratch()
-    r = _isolated_work((0, d["program"], str(scratch / "replay.py"), [d["input"]] if d.get("input") else []))
+    r = _isolated_work((0, d["program"], str(scratch / "replay.py"), d.get("inputs") or ([d["input"]] if d.get("input") else [])))
     print(d["program"])
     print("input:", d.get("input"))
     print("failures:", r["fails"] or "none")
